@@ -129,6 +129,20 @@ pub fn dispatch(f: &[&str]) -> String {
                 Err(_) => "none".into(),
             }
         }
+        "hdr.cdisp_copy" => {
+            // f[1] kind, f[2] file name: the typed header built from the name, stored, read back with get::<ContentDisposition>() and stored
+            // in another map; the formatted text of that map
+            use lettre::message::header::{self, Headers};
+            let Some(name) = utf8(unhex(f[2])) else { return "invalid-utf8".into() };
+            let cd = if f[1] == "attachment" { header::ContentDisposition::attachment(&name) } else { header::ContentDisposition::inline_with_name(&name) };
+            let mut h = Headers::new();
+            h.set(cd);
+            let back: Option<header::ContentDisposition> = h.get();
+            let Some(back) = back else { return "unreadable".into() };
+            let mut h2 = Headers::new();
+            h2.set(back);
+            format!("ok\t{}", hex(h2.to_string().as_bytes()))
+        }
         "cd.parse" => {
             use lettre::message::header::{self, Header};
             let Some(x) = utf8(unhex(f[1])) else { return "invalid-utf8".into() };
@@ -422,8 +436,10 @@ pub fn dispatch(f: &[&str]) -> String {
             let arg = if f[3] == "str" { match String::from_utf8(raw) { Ok(s) => Arg::S(s), Err(_) => return "invalid-utf8".into() } }
                 else if f[3] == "vec" { Arg::V(raw) }
                 else { match Body::new_with_encoding(raw, enc(&f[3][5..])) { Ok(b) => Arg::B(b), Err(_) => return "refused".into() } };
-            if f[1] == "part" {
-                let mut b = SinglePart::builder().header(lettre::message::header::ContentType::TEXT_PLAIN);
+            if f[1].starts_with("part") {
+                // "part" or "part:<content type>"
+                let ct = if f[1].len() > 5 { lettre::message::header::ContentType::parse(&f[1][5..]).unwrap() } else { lettre::message::header::ContentType::TEXT_PLAIN };
+                let mut b = SinglePart::builder().header(ct);
                 if f[2] != "-" { b = b.header(enc(f[2])); }
                 let p = match arg { Arg::S(x) => b.body(x), Arg::V(x) => b.body(x), Arg::B(x) => b.body(x) };
                 format!("ok\t{}", hex(&p.formatted()))
